@@ -128,6 +128,36 @@ def source_segment(path, node):
 # --------------------------------------------------------------------------- values
 
 
+_MISSING = object()
+
+
+class SymKey:
+    """A numeric term used as a dictionary key.  The keys of one dict are kept pairwise distinct on the path:
+    a store first decides equality against every existing key (fork), so len / iteration are those of Python."""
+
+    __slots__ = ("term",)
+
+    def __init__(self, term):
+        self.term = term
+
+    def __hash__(self):
+        return hash(("symkey", self.term.get_id()))
+
+    def __eq__(self, o):
+        return isinstance(o, SymKey) and o.term.eq(self.term)
+
+    def __repr__(self):
+        return f"SymKey({self.term})"
+
+
+def unkey(k):
+    return k.term if isinstance(k, SymKey) else k
+
+
+def has_symkeys(d):
+    return any(isinstance(k, SymKey) for k in d)
+
+
 class SObj:
     """Symbolic object: a real class + a field dictionary; identity is Python identity."""
 
@@ -820,7 +850,7 @@ class Interp:
         if isinstance(v, (range, set, frozenset)):
             return list(v)
         if isinstance(v, dict):
-            return list(v.keys())
+            return [unkey(k) for k in v.keys()]
         if isinstance(v, (str, bytes)):
             return list(v) if isinstance(v, str) else [v[i] for i in range(len(v))]
         if isinstance(v, SStr):
@@ -897,6 +927,26 @@ class Interp:
                 kk = self.concrete_key(kk)
                 d[kk] = self.eval(v, env)
         return d
+
+    def dict_find(self, d, idx):
+        """The key object of `d` equal to idx on this path (forking on equalities with numeric term keys), or
+        _MISSING.  Without term keys on either side this is an ordinary lookup."""
+        from .strings import SStr
+
+        numeric_sym = is_sym(idx) and not isinstance(idx, SStr) and not z3.is_bool(idx)
+        if not numeric_sym and not has_symkeys(d):
+            k = self.concrete_key(idx)
+            return k if k in d else _MISSING
+        if not numeric_sym and not isinstance(idx, (int, float, Fraction)):
+            k = self.concrete_key(idx)
+            return k if k in d else _MISSING
+        for k in list(d):
+            if isinstance(k, SymKey) or (numeric_sym and isinstance(k, (int, float, Fraction)) and not isinstance(k, bool)):
+                if self.ctx.decide(self.truthy(self.equals(unkey(k), idx)), "dict key"):
+                    return k
+            elif not numeric_sym and k == idx:
+                return k
+        return _MISSING
 
     def concrete_key(self, k):
         from .strings import SStr
@@ -1348,9 +1398,9 @@ class Interp:
                 idx = int(idx)
             return obj[self.norm_index(idx, len(obj))]
         if isinstance(obj, dict):
-            k = self.concrete_key(idx)
-            if k not in obj:
-                raise PyRaise(KeyError, (k,))
+            k = self.dict_find(obj, idx)
+            if k is _MISSING:
+                raise PyRaise(KeyError, (idx,))
             return obj[k]
         if isinstance(obj, SStr):
             return obj.getitem(self, idx)
@@ -1398,7 +1448,10 @@ class Interp:
             obj[self.norm_index(idx, len(obj))] = v
             return
         if isinstance(obj, dict):
-            obj[self.concrete_key(idx)] = v
+            k = self.dict_find(obj, idx)
+            if k is _MISSING:
+                k = SymKey(idx) if (is_sym(idx) and not z3.is_bool(idx)) else self.concrete_key(idx)
+            obj[k] = v
             return
         if isinstance(obj, SObj):
             return self.call_method(obj, "__setitem__", [idx, v], {})
@@ -1763,7 +1816,7 @@ class Interp:
         if isinstance(container, dict):
             if isinstance(item, SStr) and not item.is_literal():
                 return _disj([item.eq(self, SStr.lit(k)) for k in container if isinstance(k, str)])
-            return self.concrete_key(item) in container
+            return self.dict_find(container, item) is not _MISSING
         if isinstance(container, (list, tuple, set, frozenset)):
             if deep_concrete(container) and deep_concrete(item):
                 return item in container
